@@ -145,6 +145,9 @@ pub mod data;
 pub mod decode;
 pub mod encode;
 
+#[cfg(minicbor_verif)]
+pub mod verif;
+
 const UNSIGNED: u8 = 0x00;
 const SIGNED: u8   = 0x20;
 const BYTES: u8    = 0x40;
